@@ -19,7 +19,10 @@ GroupVariants == <<[has |-> FALSE, gb |-> <<>>, aliases |-> <<>>],
                    [has |-> TRUE, gb |-> <<g1>>, aliases |-> <<>>],
                    [has |-> TRUE, gb |-> <<g1, al>>, aliases |-> <<[alias |-> al, map |-> <<(<<1, fA>>), (<<2, fX>>)>>]>>],
                    \* aliases without any group-by: the normalisation is emitted all the same
-                   [has |-> FALSE, gb |-> <<>>, aliases |-> <<[alias |-> al, map |-> <<(<<1, fA>>), (<<2, fX>>)>>]>>]>>
+                   [has |-> FALSE, gb |-> <<>>, aliases |-> <<[alias |-> al, map |-> <<(<<1, fA>>), (<<2, fX>>)>>]>>],
+                   \* an alias whose NAME the field mapping would rename (g1 -> G1), defined for rule 2 only, in the group-by:
+                   \* an alias name is kept whatever the item's conditions make of the rules it is defined for
+                   [has |-> TRUE, gb |-> <<g1>>, aliases |-> <<[alias |-> g1, map |-> <<(<<2, fX>>)>>]>>]>>
 Cond(kind, op, count, hasfield, haspct, expr) ==
     [kind |-> kind, op |-> op, count |-> count, hasfield |-> hasfield, field |-> ff, haspct |-> haspct, pct |-> 75, expr |-> expr, frac |-> FALSE]
 MkB(ts, ty, no, op, pi) == [tsmode |-> ts, typing |-> ty, norm |-> no, optin |-> op, pipe |-> pi]
@@ -42,6 +45,8 @@ CasesF == {[c |-> Corr(t, RefSets[r], 2, [count |-> 5, unit |-> 109], [Cond("bas
 \*      no condition field - what is left is the renaming of the alias targets, rule by rule
 CasesW == {[c |-> Corr(t, RefSets[r], 4, [count |-> 5, unit |-> 109], Cond("basic", "gte", 2, FALSE, FALSE, <<>>), FALSE),
             B |-> MkB("map", ty, TRUE, op, "rename_win")] : t \in {1, 3}, r \in {3, 5}, ty \in BOOLEAN, op \in BOOLEAN}
+CasesW2 == {[c |-> Corr(t, RefSets[3], 5, [count |-> 5, unit |-> 109], Cond("basic", "gte", 2, FALSE, FALSE, <<>>), FALSE),
+             B |-> MkB("map", ty, TRUE, FALSE, pi)] : t \in {1, 3}, ty \in BOOLEAN, pi \in {"rename_win", "rename", "none"}}
 \* (B) every backend template set x reference set x group-by variant
 CasesB == {[c |-> Corr(t, RefSets[r], gv, [count |-> 5, unit |-> 109], Cond("basic", "gte", 2, FALSE, FALSE, <<>>), gen), B |-> BSeq[b]] :
              t \in {1, 3}, r \in 1..8, gv \in 1..4, b \in 1..Len(BSeq), gen \in (IF Quick THEN {FALSE} ELSE BOOLEAN)}
@@ -56,7 +61,7 @@ RefsOf(a) == IF \E i \in 1..1 : a = CNot(CNot(CId(r1))) THEN <<1>>
              ELSE IF a = CBin("cor", CId(r4), CBin("cand", CNot(CId(r2)), CId(r1))) THEN <<4, 2, 1>> ELSE <<1, 2>>
 CasesC == {[c |-> Corr(t, RefsOf(a), 2, [count |-> 5, unit |-> 109], Cond("ext", "gte", 1, FALSE, FALSE, CPrint(a, st)), FALSE), B |-> BSeq[b]] :
              t \in {3, 4}, a \in ExtAsts, st \in {"min", "full"}, b \in {1, 7, 20, 33}}
-ASSUME LET S == SetToSeq(CasesA \cup CasesF \cup CasesW \cup CasesB \cup CasesC)
+ASSUME LET S == SetToSeq(CasesA \cup CasesF \cup CasesW \cup CasesW2 \cup CasesB \cup CasesC)
        IN  ndJsonSerialize(IOEnv.VERIF_OUT, [i \in 1..Len(S) |-> [id |-> i] @@ S[i]])
 Init == x = 0
 Next == UNCHANGED x
